@@ -46,14 +46,14 @@ Definition served_ids (x : res (list (string * asset) * cache stored)) : list (s
 
 (** Non-vacuity of the main theorem: the written cache is good for the layout, and both servers
     serve testpic_2s with A48 and V300, reference V300, loop 8000 ms. *)
-Lemma w_cache_good : cache_good stored enc0 w_cache w_l.
+Lemma w_cache_good : cache_good stored enc0 dec0 w_cache w_l.
 Proof.
   unfold cache_good, w_l, w_mpds. constructor; [|constructor].
   unfold mpd_good, sets_good. intros s Hs. destruct Hs as [<-|[<-|[]]]; unfold reps_good; cbn [as_reps];
     intros b m [E|[]]; injection E as <- <-; split.
-  - right. eexists. split; [vm_compute; reflexivity|vm_compute; reflexivity].
+  - right; right; right. eexists. split; [vm_compute; reflexivity|vm_compute; reflexivity].
   - unfold init_ts_ok. change (48000 <> 0). discriminate.
-  - right. eexists. split; [vm_compute; reflexivity|vm_compute; reflexivity].
+  - right; right; right. eexists. split; [vm_compute; reflexivity|vm_compute; reflexivity].
   - unfold init_ts_ok. change (90000 <> 0). discriminate.
 Qed.
 
@@ -65,18 +65,17 @@ Lemma w_served_cache : served_ids (discover stored enc0 dec0 mode_read w_l w_cac
                        = [("testpic_2s", ["Manifest.mpd"], ["A48"; "V300"], Some "V300", 8000)].
 Proof. vm_compute. reflexivity. Qed.
 
-(** The defect: V300_data.json.gz unreadable. loadAsset returns after the MPD and A48 were
-    registered, consolidateAsset accepts what is left: the asset is served with A48 only, although
-    its MPD lists V300. *)
+(** V300_data.json.gz unreadable: it is treated like a missing file, the asset is served as by a
+    scanning server (before effd3ff/7fa28f3 it was served with A48 only). *)
 Definition w_cache_broken : cache stored :=
   fun a id => if String.eqb a "testpic_2s" && String.eqb id "V300" then CBroken else w_cache a id.
 
 Lemma w_served_broken : served_ids (discover stored enc0 dec0 mode_read w_l w_cache_broken)
-                        = [("testpic_2s", ["Manifest.mpd"], ["A48"], Some "A48", 8000)].
+                        = [("testpic_2s", ["Manifest.mpd"], ["A48"; "V300"], Some "V300", 8000)].
 Proof. vm_compute. reflexivity. Qed.
 
-(** Same defect, other direction: two video representations of different duration (6 s and 8 s)
-    are left out by a scanning server; with the file of the second one unreadable the asset is served. *)
+(** Two video representations of different duration (6 s and 8 s) are left out by a scanning
+    server, and also when the file of the second one is unreadable. *)
 Definition w_v2 := mk_rep "V2" "video" 90000 [okseg 0 3000 60; okseg 180000 3000 60; okseg 360000 3000 60].
 Definition w_l2 := w_mpds [] [(false, w_v300); (false, w_v2)].
 Definition w_cache2_broken : cache stored :=
@@ -85,8 +84,7 @@ Definition w_cache2_broken : cache stored :=
 Lemma w_differ_scan : discover stored enc0 dec0 mode_scan w_l2 (fun _ _ => CAbsent) = Ok ([], fun _ _ => CAbsent).
 Proof. vm_compute. reflexivity. Qed.
 
-Lemma w_differ_broken : served_ids (discover stored enc0 dec0 mode_read w_l2 w_cache2_broken)
-                        = [("testpic_2s", ["Manifest.mpd"], ["V300"], Some "V300", 8000)].
+Lemma w_differ_broken : served_ids (discover stored enc0 dec0 mode_read w_l2 w_cache2_broken) = [].
 Proof. vm_compute. reflexivity. Qed.
 
 (** An init segment with timescale 0: readInit runs again in the cache path and resets
@@ -97,19 +95,55 @@ Lemma w_ts0_differs :
                r_dsd r = 3000 /\ r_dsd r' = 0.
 Proof. eexists. eexists. split; [vm_compute; reflexivity|]. split; [vm_compute; reflexivity|]. split; reflexivity. Qed.
 
-(** consolidateAsset compares only representations of the reference content type (and
-    pre-encrypted ones): video 8 s with a text representation of 6 s is admitted. *)
+(** Representations that are looped with the reference duration must have exactly that duration:
+    video 8 s with a text representation of 6 s is left out. *)
 Definition w_t1 := mk_rep "T1" "text" 1000 [okseg 0 2000 1; okseg 2000 2000 1; okseg 4000 2000 1].
 Definition w_l3 : mpd_list :=
   [("vt", "Manifest.mpd",
     MOk [ {| as_has_template := true; as_ctype := "video"; as_reps := [(false, w_v300)] |};
           {| as_has_template := true; as_ctype := "text"; as_reps := [(false, w_t1)] |} ])].
 
-Lemma w_text_shorter_admitted :
-  served_ids (discover stored enc0 dec0 mode_scan w_l3 (fun _ _ => CAbsent))
-  = [("vt", ["Manifest.mpd"], ["V300"; "T1"], Some "V300", 8000)].
+Lemma w_text_shorter_left_out :
+  served_ids (discover stored enc0 dec0 mode_scan w_l3 (fun _ _ => CAbsent)) = [].
 Proof. vm_compute. reflexivity. Qed.
 
-Lemma w_text_shorter_duration :
-  exists r, scan_rep w_t1 = Ok r /\ dur_ms r = Ok 6000.
-Proof. eexists. split; [vm_compute; reflexivity|vm_compute; reflexivity]. Qed.
+(** A $Time$ representation whose files have a gap is loaded with the gap and left out by the
+    contiguity test of consolidateAsset. *)
+Definition w_tgap : mpd_rep :=
+  {| m_id := "V1"; m_ctype := "video"; m_as_codecs := "x"; m_rep_codecs := ""; m_inituri := "V1/init.mp4";
+     m_mediauri := "V1/$Time$.m4s"; m_timescale := Some 1000; m_timeline := Some [ {| e_t := Some 0; e_d := 2000; e_r := 1 |} ];
+     m_startnr := None; m_endnr := None; m_duration := None; m_init := IOk 1000 40 false; m_files := [];
+     m_tfiles := fun t => if t =? 0 then okseg 0 40 50 else if t =? 2000 then okseg 2300 40 50 else FMissing |}.
+Definition w_l4 : mpd_list :=
+  [("tg", "Manifest.mpd", MOk [ {| as_has_template := true; as_ctype := "video"; as_reps := [(false, w_tgap)] |} ])].
+
+Lemma w_time_gap_loaded :
+  match scan_rep w_tgap with Ok r => map (fun s => (c_st s, c_en s)) (r_segs r) | _ => [] end = [(0, 2000); (2300, 4300)].
+Proof. vm_compute. reflexivity. Qed.
+
+Lemma w_time_gap_left_out :
+  served_ids (discover stored enc0 dec0 mode_scan w_l4 (fun _ _ => CAbsent)) = [].
+Proof. vm_compute. reflexivity. Qed.
+
+(** An image representation without a duration attribute keeps MediaTimescale 0; consolidateAsset
+    skips it (23777f0) and the asset is served. *)
+Definition w_thumbs : mpd_rep :=
+  {| m_id := "thumbs"; m_ctype := "image"; m_as_codecs := ""; m_rep_codecs := ""; m_inituri := "";
+     m_mediauri := "thumbs/$Number$.jpg"; m_timescale := None; m_timeline := None; m_startnr := Some 1; m_endnr := None;
+     m_duration := None; m_init := IBad; m_files := [okseg 0 0 0; okseg 0 0 0]; m_tfiles := fun _ => FMissing |}.
+Definition w_l5 : mpd_list :=
+  [("th", "Manifest.mpd",
+    MOk [ {| as_has_template := true; as_ctype := "video"; as_reps := [(false, w_v300)] |};
+          {| as_has_template := true; as_ctype := "image"; as_reps := [(false, w_thumbs)] |} ])].
+
+Lemma w_thumbs_ts0_served :
+  served_ids (discover stored enc0 dec0 mode_scan w_l5 (fun _ _ => CAbsent))
+  = [("th", ["Manifest.mpd"], ["V300"; "thumbs"], Some "V300", 8000)].
+Proof. vm_compute. reflexivity. Qed.
+
+(** A media file without fragments in the second representation: the MPD is not registered, the
+    asset is left out (before 695fbfc the start-up panicked; before 7fa28f3 A48 stayed registered). *)
+Definition w_v_nofrag := mk_rep "V300" "video" 90000 [okseg 0 3000 60; FNoFrag; okseg 360000 3000 60].
+Lemma w_nofrag_left_out :
+  served_ids (discover stored enc0 dec0 mode_scan (w_mpds [(false, w_a48)] [(false, w_v_nofrag)]) (fun _ _ => CAbsent)) = [].
+Proof. vm_compute. reflexivity. Qed.
